@@ -408,7 +408,8 @@ static Reg r_sess("sess", [](std::istringstream& is) {
 	{
 		// concurrent senders: every thread runs its script of sends / batches; messages are built up front (single-threaded)
 		unsigned nthreads(0); std::string scripts; is >> nthreads >> scripts;
-		struct Step { std::vector<Message *> msgs; bool yield = false; };
+		// step kinds: s = send(msg) (session destroys), k = send(msg, false) (caller keeps and deletes), r = send(Message&), b = send_batch(destroy), B = send_batch(keep)
+		struct Step { std::vector<Message *> msgs; bool yield = false; char kind = 's'; };
 		std::vector<std::vector<Step>> plan;
 		{
 			std::istringstream ss(scripts); std::string sc;
@@ -422,6 +423,7 @@ static Reg r_sess("sess", [](std::istringstream& is) {
 					if (t == "y") step.yield = true;
 					else
 					{
+						step.kind = t[0];
 						std::istringstream ids(t.substr(1)); std::string id;
 						while (std::getline(ids, id, '+'))
 						{
@@ -442,8 +444,14 @@ static Reg r_sess("sess", [](std::istringstream& is) {
 				for (auto& st : script)
 				{
 					if (st.yield) { sched_yield(); continue; }
-					if (st.msgs.size() == 1) { if (s.ses->send(st.msgs[0])) ++accepted; }
-					else accepted += s.ses->send_batch(st.msgs, true);
+					switch (st.kind)
+					{
+					case 's': if (s.ses->send(st.msgs[0])) ++accepted; break;
+					case 'k': if (s.ses->send(st.msgs[0], false)) ++accepted; delete st.msgs[0]; break;
+					case 'r': if (s.ses->send(*st.msgs[0])) ++accepted; delete st.msgs[0]; break;
+					case 'B': accepted += s.ses->send_batch(st.msgs, false); for (auto *m : st.msgs) delete m; break;
+					default: accepted += s.ses->send_batch(st.msgs, true); break;
+					}
 				}
 			});
 		go = 1;
